@@ -5,6 +5,7 @@ cd /verif
 one() {
   d=$1; id=$(basename $d)
   out=$(tools/refrun.sh $d/patch.diff 2>&1)
+  if ! echo "$out" | grep -q "SILENT"; then mkdir -p /tmp/refall.out; echo "$out" > /tmp/refall.out/$id.txt; fi
   if echo "$out" | grep -q "SILENT"; then echo "SILENT      $id"
   elif echo "$out" | grep -q "FALSE-ALARM"; then echo "FALSE-ALARM $id  $(echo "$out" | grep FALSE-ALARM | sed -E 's/.*property=(C[0-9]+) +[^ ]+ ([^:]+):.*/\1:\2/' | sort -u | tr '\n' ' ' | cut -c1-300)"
   elif echo "$out" | grep -q "REF: patch does not apply"; then echo "NOAPPLY     $id"
